@@ -83,7 +83,7 @@ size_t vg_buf_len;
 #endif
 
 /* bounded units bring their own loop-based libc functions and define NET_EXACT_LIBC */
-#if defined(VERIF_OWN_STRCHR) && !defined(NET_EXACT_LIBC)
+#if defined(VERIF_OWN_STRCHR) && !defined(NET_EXACT_LIBC) && !defined(VERIF_NATIVE)
 static char *vg_search(const char *s, int c)
 {
     if (nondet_bool()) {
@@ -151,7 +151,9 @@ char *strstr(const char *h, const char *nd)
  * SPIF_OBJ_* dispatch macros); the text of /repo's .c files is unchanged.
  * Units needing an exact "%d" define VERIF_OWN_SNPRINTF and supply vg_snprintf themselves.
  * ====================================================================================== */
-#ifndef VERIF_OWN_SNPRINTF
+#ifdef VERIF_NATIVE
+/* native replay: the real snprintf */
+#elif !defined(VERIF_OWN_SNPRINTF)
 int vg_snprintf(char *buf, size_t size, const char *fmt, long first_arg)
 {
     __CPROVER_assert(fmt != NULL, "snprintf: format not NULL");
@@ -169,10 +171,12 @@ int vg_snprintf(char *buf, size_t size, const char *fmt, long first_arg)
 #else
 int vg_snprintf(char *buf, size_t size, const char *fmt, long first_arg);
 #endif
+#ifndef VERIF_NATIVE
 #undef snprintf
 #define snprintf(buf, size, ...) vg_snprintf((char *) (buf), (size), VG_SNPRINTF_ARGS(__VA_ARGS__, 0, 0))
 /* first variable argument (0 when there is none) is handed to the model, the others are evaluated */
 #define VG_SNPRINTF_ARGS(fmt, first, ...) (fmt), ((void) (__VA_ARGS__), (long) (first))
+#endif
 
 /* ======================================================================================
  * 3. Name-service lookups.  Each call returns NULL or a pointer to a static record whose
@@ -194,7 +198,7 @@ static char *vg_no_aliases[1];
     __CPROVER_object_whole(vg_protoent_name), __CPROVER_object_whole(vg_servent_name), \
     __CPROVER_object_whole(vg_servent_proto), __CPROVER_object_whole(vg_no_aliases)
 
-#ifndef VERIF_OWN_LOOKUPS
+#if !defined(VERIF_OWN_LOOKUPS) && !defined(VERIF_NATIVE)
 struct protoent *getprotobyname(const char *name)
 {
     __CPROVER_assert(name != NULL && __CPROVER_r_ok(name, 1), "getprotobyname: name is a readable string");
@@ -271,23 +275,59 @@ unsigned vg_close_bad, vg_close_calls;
 #define VG_FD_OPEN(fd)  (VG_FD_VALID(fd) && vg_fd_open[(fd)])
 #define VG_KERNEL_ASSIGNS vg_errno, __CPROVER_object_whole(vg_fd_open), vg_close_bad, vg_close_calls
 
-static int vg_any_errno(void) { int e = nondet_int(); __CPROVER_assume(e > 0 && e < 4096); return e; }
+/* Sources of nondeterminism of the kernel model.
+ * default: nondet_*() at every decision (DFCC units, unbounded loops).
+ * NET_TAPE: every decision is DRAWN from a finite decision tape vg_tape[0..VG_TAPE_N) that the unit's harness fills
+ *   through VND(long, tapeI) - so the verifier's witness contains the whole schedule of kernel answers and the
+ *   native replay (the same stubs compiled natively: the ghost kernel, not the real one) follows it exactly.
+ *   "Tape long enough" is an obligation, so a run that needs more decisions is not silently cut off. */
+#ifdef VERIF_NATIVE
+# define __CPROVER_r_ok(p, n) 1
+# define __CPROVER_w_ok(p, n) 1
+# define __CPROVER_rw_ok(p, n) 1
+# define __CPROVER_havoc_slice(p, n) memset((p), 0x5a, (n))
+#endif
+#ifdef NET_TAPE
+# define VG_TAPE_N 16
+long vg_tape[VG_TAPE_N]; unsigned vg_tape_pos;
+static long vg_draw(void)
+{
+# ifdef VERIF_NATIVE
+    if (vg_tape_pos >= VG_TAPE_N) { fprintf(stderr, "NATIVE-REPLAY: decision tape exhausted\n"); exit(0); }
+# else
+    __CPROVER_assert(vg_tape_pos < VG_TAPE_N, "kernel model: decision tape long enough for this run");
+    __CPROVER_assume(vg_tape_pos < VG_TAPE_N);
+# endif
+    return vg_tape[vg_tape_pos++];
+}
+# define VG_NB() ((vg_draw() & 1) != 0)
+# define VG_NI() ((int) vg_draw())
+# define VG_NL() (vg_draw())
+# define VG_TAPE_1(i) do { vg_tape[i] = VND(long, tape ## i); __CPROVER_assume(vg_tape[i] >= -2147483647L && vg_tape[i] <= 2147483647L); } while (0)
+# define VG_TAPE_FILL() do { VG_TAPE_1(0); VG_TAPE_1(1); VG_TAPE_1(2); VG_TAPE_1(3); VG_TAPE_1(4); VG_TAPE_1(5); VG_TAPE_1(6); VG_TAPE_1(7); \
+    VG_TAPE_1(8); VG_TAPE_1(9); VG_TAPE_1(10); VG_TAPE_1(11); VG_TAPE_1(12); VG_TAPE_1(13); VG_TAPE_1(14); VG_TAPE_1(15); vg_tape_pos = 0; } while (0)
+#else
+# define VG_NB() nondet_bool()
+# define VG_NI() nondet_int()
+# define VG_NL() nondet_long()
+#endif
+static int vg_any_errno(void) { int e = VG_NI(); __CPROVER_assume(e > 0 && e < 4096); return e; }
 static int vg_new_fd(void)
 {
-    int fd = nondet_int();
+    int fd = VG_NI();
     __CPROVER_assume(VG_FD_VALID(fd) && !vg_fd_open[fd]);
     vg_fd_open[fd] = 1;
     return fd;
 }
 int socket(int domain, int type, int protocol)
 {
-    if (nondet_bool()) { vg_errno = vg_any_errno(); return -1; }
+    if (VG_NB()) { vg_errno = vg_any_errno(); return -1; }
     return vg_new_fd();
 }
 int dup(int oldfd)
 {
     if (!VG_FD_OPEN(oldfd)) { vg_errno = EBADF; return -1; }
-    if (nondet_bool()) { vg_errno = vg_any_errno(); return -1; }
+    if (VG_NB()) { vg_errno = vg_any_errno(); return -1; }
     return vg_new_fd();
 }
 int close(int fd)
@@ -295,7 +335,7 @@ int close(int fd)
     vg_close_calls++;
     if (!VG_FD_OPEN(fd)) { vg_close_bad++; vg_errno = EBADF; return -1; }
     vg_fd_open[fd] = 0;
-    if (nondet_bool()) { vg_errno = vg_any_errno(); __CPROVER_assume(vg_errno != EBADF); return -1; }
+    if (VG_NB()) { vg_errno = vg_any_errno(); __CPROVER_assume(vg_errno != EBADF); return -1; }
     return 0;
 }
 int bind(int fd, const struct sockaddr *addr, socklen_t len)
@@ -303,13 +343,13 @@ int bind(int fd, const struct sockaddr *addr, socklen_t len)
     if (!VG_FD_OPEN(fd)) { vg_errno = EBADF; return -1; }
     if (addr == NULL) { vg_errno = EFAULT; return -1; }
     __CPROVER_assert(__CPROVER_r_ok(addr, len), "bind: address readable for len bytes");
-    if (nondet_bool()) { vg_errno = vg_any_errno(); return -1; }
+    if (VG_NB()) { vg_errno = vg_any_errno(); return -1; }
     return 0;
 }
 int listen(int fd, int backlog)
 {
     if (!VG_FD_OPEN(fd)) { vg_errno = EBADF; return -1; }
-    if (nondet_bool()) { vg_errno = vg_any_errno(); return -1; }
+    if (VG_NB()) { vg_errno = vg_any_errno(); return -1; }
     return 0;
 }
 int connect(int fd, const struct sockaddr *addr, socklen_t len)
@@ -317,18 +357,18 @@ int connect(int fd, const struct sockaddr *addr, socklen_t len)
     if (!VG_FD_OPEN(fd)) { vg_errno = EBADF; return -1; }
     if (addr == NULL) { vg_errno = EFAULT; return -1; }
     __CPROVER_assert(__CPROVER_r_ok(addr, len), "connect: address readable for len bytes");
-    if (nondet_bool()) { vg_errno = vg_any_errno(); return -1; }
+    if (VG_NB()) { vg_errno = vg_any_errno(); return -1; }
     return 0;
 }
 #ifndef NET_OWN_ACCEPT
 int accept(int fd, struct sockaddr *addr, socklen_t *len)
 {
     if (!VG_FD_OPEN(fd)) { vg_errno = EBADF; return -1; }
-    if (nondet_bool()) { vg_errno = vg_any_errno(); return -1; }
+    if (VG_NB()) { vg_errno = vg_any_errno(); return -1; }
     if (addr != NULL) {
         __CPROVER_assert(len != NULL && __CPROVER_w_ok(addr, *len), "accept: address buffer writable for *len bytes");
         __CPROVER_havoc_slice(addr, *len);
-        socklen_t n = nondet_uint();
+        socklen_t n = (socklen_t) (VG_NL() & 0x7fffffffL);
         *len = n;                      /* the real length of the peer address (may exceed the buffer) */
     }
     return vg_new_fd();
@@ -338,8 +378,8 @@ int accept(int fd, struct sockaddr *addr, socklen_t *len)
 int vg_fcntl(int fd, int cmd, long arg)
 {
     if (!VG_FD_OPEN(fd)) { vg_errno = EBADF; return -1; }
-    if (nondet_bool()) { vg_errno = vg_any_errno(); return -1; }
-    if (cmd == F_GETFL) { int fl = nondet_int(); __CPROVER_assume(fl >= 0); return fl; }
+    if (VG_NB()) { vg_errno = vg_any_errno(); return -1; }
+    if (cmd == F_GETFL) { int fl = VG_NI(); __CPROVER_assume(fl >= 0); return fl; }
     return 0;
 }
 #undef fcntl
@@ -348,15 +388,15 @@ int select(int nfds, fd_set *r, fd_set *w, fd_set *e, struct timeval *tv)
 {
     /* Linux: the timeout is updated to the time not slept; the sets keep only ready descriptors */
     if (tv != NULL) {
-        long s = nondet_long(), us = nondet_long();
+        long s = VG_NL(), us = VG_NL();
         __CPROVER_assume(s >= 0 && s <= tv->tv_sec && us >= 0 && us <= ((tv->tv_usec > 999999) ? tv->tv_usec : 999999));
         tv->tv_sec = s; tv->tv_usec = us;
     }
-    if (nondet_bool()) { vg_errno = vg_any_errno(); return -1; }
-    if (r != NULL) { fd_set m; *r = m; }
-    if (w != NULL) { fd_set m; *w = m; }
-    if (e != NULL) { fd_set m; *e = m; }
-    int n = nondet_int();
+    if (VG_NB()) { vg_errno = vg_any_errno(); return -1; }
+    if (r != NULL) { fd_set m; memset(&m, (int) (VG_NL() & 0xff), sizeof(m)); *r = m; }
+    if (w != NULL) { fd_set m; memset(&m, (int) (VG_NL() & 0xff), sizeof(m)); *w = m; }
+    if (e != NULL) { fd_set m; memset(&m, (int) (VG_NL() & 0xff), sizeof(m)); *e = m; }
+    int n = VG_NI();
     __CPROVER_assume(n >= 0 && n <= 3 * (nfds > 0 ? nfds : 0));
     return n;
 }
@@ -365,9 +405,9 @@ char *strerror(int e) { return (char *) "error"; }
 /* ---- byte streams ---------------------------------------------------------------------------- */
 const char *vg_wr_base;
 size_t vg_wr_len, vg_wr_total, vg_wr_calls, vg_wr_retries;
-_Bool vg_wr_in_order;
+_Bool vg_wr_in_order, vg_wr_hard;   /* vg_wr_hard: some write() failed with an errno other than EAGAIN/EINTR */
 #define VG_RETRY_CAP (((size_t) 1) << 40)
-#define VG_WRITE_ASSIGNS vg_wr_total, vg_wr_calls, vg_wr_retries, vg_wr_in_order
+#define VG_WRITE_ASSIGNS vg_wr_total, vg_wr_calls, vg_wr_retries, vg_wr_in_order, vg_wr_hard
 #ifndef NET_OWN_WRITE
 ssize_t write(int fd, const void *buf, size_t n)
 {
@@ -375,8 +415,8 @@ ssize_t write(int fd, const void *buf, size_t n)
     vg_wr_calls++;
     if (!((const char *) buf == vg_wr_base + vg_wr_total && vg_wr_total <= vg_wr_len && n <= vg_wr_len - vg_wr_total))
         vg_wr_in_order = 0;
-    if (!VG_FD_OPEN(fd)) { vg_errno = EBADF; return -1; }
-    if (nondet_bool()) {
+    if (!VG_FD_OPEN(fd)) { vg_errno = EBADF; vg_wr_hard = 1; return -1; }
+    if (VG_NB()) {
         vg_errno = vg_any_errno();
 #ifdef NET_WRITE_NO_EFBIG
         __CPROVER_assume(vg_errno != EFBIG);
@@ -384,10 +424,12 @@ ssize_t write(int fd, const void *buf, size_t n)
         if (vg_errno == EAGAIN || vg_errno == EINTR) {
             vg_wr_retries++;
             __CPROVER_assume(vg_wr_retries < VG_RETRY_CAP);
+        } else {
+            vg_wr_hard = 1;
         }
         return -1;
     }
-    size_t k = nondet_size_t();
+    size_t k = (size_t) (VG_NL() & 0x7fffffffffffffffL);
     __CPROVER_assume(k <= n && (k > 0 || n == 0) && k <= (size_t) 0x7fffffff);     /* complete or short */
 #ifdef NET_WRITE_NO_SHORT
     __CPROVER_assume(k == n);                                                       /* complete only */
@@ -403,8 +445,8 @@ ssize_t read(int fd, void *buf, size_t n)
     __CPROVER_assert(n == 0 || __CPROVER_w_ok(buf, n), "read: buffer writable for n bytes");
     vg_rd_calls++;
     if (!VG_FD_OPEN(fd)) { vg_errno = EBADF; return -1; }
-    if (nondet_bool()) { vg_errno = vg_any_errno(); return -1; }
-    size_t k = nondet_size_t();
+    if (VG_NB()) { vg_errno = vg_any_errno(); return -1; }
+    size_t k = (size_t) (VG_NL() & 0x7fffffffffffffffL);
     __CPROVER_assume(k <= n);                                   /* 0 = end of stream; short or full chunk */
     if (k > 0) __CPROVER_havoc_slice(buf, k);
     vg_rd_total += k;
